@@ -180,6 +180,32 @@ GenOf(ls, cap, repgen) ==     \* over = bytes stored beyond buf[cap-1]
         [ok |-> r.ok, n |-> r.n, over |-> IF r.n > cap THEN r.n - cap ELSE 0]
 
 ----------------------------------------------------------------------------
+(* OBSERVATION of a store through the public interface - the value the conformance driver prints for the real
+   ini_p (harness/ini_drv.c, op "O") and the rig compares for equality.  Q = sequence of << section, name >>. *)
+RECURSIVE RLE(_, _, _, _)
+RLE(f, i, n, acc) ==     \* run-length encoding of f[i..n] appended to acc: << [v, k] >>
+   IF i > n THEN acc
+   ELSE IF acc # << >> /\ acc[Len(acc)].v = f[i] THEN RLE(f, i + 1, n, [acc EXCEPT ![Len(acc)].k = @ + 1])
+   ELSE RLE(f, i + 1, n, Append(acc, [v |-> f[i], k |-> 1]))
+RECURSIVE ObsGets(_, _, _, _, _)
+ObsGets(ls, Q, i, ins, repfind) ==
+   IF i > Len(Q) THEN << >>
+   ELSE << IF ins THEN GetIOf(ls, Q[i][1], Q[i][2]) ELSE GetOf(ls, Q[i][1], Q[i][2], repfind) >>
+        \o ObsGets(ls, Q, i + 1, ins, repfind)
+ObsStore(ls, Q, repfind) ==
+   [sects |-> EnumAll(ls), get |-> ObsGets(ls, Q, 1, FALSE, repfind), geti |-> ObsGets(ls, Q, 1, TRUE, repfind),
+    size |-> CalcSize(ls)]
+ObsGen(ls, repgen) ==     \* ini_buf_gen for EVERY capacity 0..size+1 (index c = cap + 1)
+   LET sz == CalcSize(ls)
+       R  == TLCEval([c \in 1..(sz + 2) |-> GenOf(ls, c - 1, repgen)])
+       okf   == TLCEval([c \in 1..(sz + 2) |-> R[c].ok])
+       overf == TLCEval([c \in 1..(sz + 2) |-> R[c].over])
+       nf    == TLCEval([c \in 1..(sz + 2) |-> IF R[c].ok THEN R[c].n ELSE -1])     \* n is only promised on success
+   IN [ok |-> RLE(okf, 1, sz + 2, << >>), over |-> RLE(overf, 1, sz + 2, << >>), n |-> RLE(nf, 1, sz + 2, << >>),
+       \* the distinct buffer contents [0, n) seen on success without overflow
+       outs |-> IF \E c \in 1..(sz + 2) : R[c].ok /\ R[c].over = 0 THEN << GenText(ls) >> ELSE << >>]
+
+----------------------------------------------------------------------------
 (* GHOST: the ordered dictionary of the property.  secs = << [name, ents = << [name, val] >>] >> *)
 EmptyModel == [secs |-> << >>, dupS |-> FALSE, dupI |-> FALSE]
 DIdx(seq, nm, ins) == FirstIdx({i \in 1..Len(seq) : Eq(ins, seq[i].name, nm)})
